@@ -53,7 +53,7 @@ func (c *CCtx) heap(name string) string {
 			if h, ok := c.oldHeaps[name]; ok {
 				return h
 			}
-			return c.e.heapSym(c.st, name) // untouched by the call
+			return name + "_0" // never touched before the call: still the entry heap
 		}
 		return name + "_0"
 	}
@@ -162,7 +162,11 @@ func (c *CCtx) Compile(x Expr) CVal {
 			} else {
 				delete(c.vars, n.Var)
 			}
-			return CVal{T: fmt.Sprintf("(forall ((%s %s)) %s)", n.Var, n.Sort, body.T), Sort: "Bool"}
+			q := "forall"
+			if n.Exists {
+				q = "exists"
+			}
+			return CVal{T: fmt.Sprintf("(%s ((%s %s)) %s)", q, n.Var, n.Sort, body.T), Sort: "Bool"}
 		}
 		lo, hi := c.Compile(n.Lo), c.Compile(n.Hi)
 		old, had := c.vars[n.Var]
@@ -172,6 +176,9 @@ func (c *CCtx) Compile(x Expr) CVal {
 			c.vars[n.Var] = old
 		} else {
 			delete(c.vars, n.Var)
+		}
+		if n.Exists {
+			return CVal{T: fmt.Sprintf("(exists ((%s Int)) (and (<= %s %s) (< %s %s) %s))", n.Var, lo.T, n.Var, n.Var, hi.T, body.T), Sort: "Bool"}
 		}
 		return CVal{T: fmt.Sprintf("(forall ((%s Int)) (=> (and (<= %s %s) (< %s %s)) %s))", n.Var, lo.T, n.Var, n.Var, hi.T, body.T), Sort: "Bool"}
 	case Ite:
@@ -444,6 +451,9 @@ func (c *CCtx) call(n Call) CVal {
 			bindFail("addr(%s): not an address-taken variable in scope", id.Name)
 		}
 		return CVal{T: c.e.val(c.st, b.X), Sort: "Int", GoT: b.X.Type()}
+	case "maplen": // number of keys of a map
+		m := arg(0)
+		return CVal{T: fmt.Sprintf("(select %s %s)", c.heap(c.e.sorts.HeapMapLen()), m.T), Sort: "Int"}
 	case "keys": // key set of a map as an SMT array
 		m := arg(0)
 		mt := m.GoT.Underlying().(*types.Map)
@@ -505,7 +515,13 @@ func (c *CCtx) call(n Call) CVal {
 		tn := n.Args[1].(StrLit).V
 		ptr := strings.HasPrefix(tn, "*")
 		tn = expandType(strings.TrimPrefix(tn, "*"))
+		if bt := basicTypeOf(tn); bt != nil {
+			return c.val(arg(0).T, bt)
+		}
 		i := strings.LastIndex(tn, ".")
+		if i < 0 {
+			bindFail("unknown type %s", tn)
+		}
 		pk := c.e.fn.Prog.ImportedPackage(tn[:i])
 		if pk == nil || pk.Type(tn[i+1:]) == nil {
 			bindFail("unknown type %s", tn)
@@ -760,4 +776,20 @@ func expandType(tn string) string {
 		tn = modPrefix + "/" + strings.TrimPrefix(tn, "gopki/")
 	}
 	return star + tn
+}
+
+// basicTypeOf: "string", "int", "bool", "byte" and slices of them.
+func basicTypeOf(tn string) types.Type {
+	if strings.HasPrefix(tn, "[]") {
+		if el := basicTypeOf(tn[2:]); el != nil {
+			return types.NewSlice(el)
+		}
+		return nil
+	}
+	if obj := types.Universe.Lookup(tn); obj != nil {
+		if tnm, ok := obj.(*types.TypeName); ok {
+			return tnm.Type()
+		}
+	}
+	return nil
 }
